@@ -1,12 +1,13 @@
 """C19 — Core-format loaders reproduce what an independent writer encoded.
 
 proof      : XmpProps.C19 over XmpModel.FmtMod/FmtS3m/FmtXm/FmtIt
-             (MOD whole file: read (write s o) = some s; S3M/XM/IT pattern and sample-header codecs)
+             (whole file read (write s o) = some s for MOD, S3M, XM and IT incl. IT instrument mode and compressed samples)
 oracle     : files written by the Lean `write` (independent encoder) from random abstract songs are loaded
              by the real library from memory (harness/c19_roundtrip.c); the canonical dump is compared
              field by field with the abstract song
 tie        : the Lean loader model `read` is run on the same bytes, on byte mutants and on the repository's
              corpus files of the four formats and compared with the real loader's dump
+corpus     : corpus/C19/*.json: witnesses of repaired loader defects (bytes + abstract song), run first
 """
 import os
 import subprocess
@@ -17,27 +18,46 @@ FORMATS = ["mod", "s3m", "xm", "it"]
 MANIFEST = dict(
     category="proof",
     text="Lean 4 theorems (XmpProps.C19) over an independent MOD/S3M/XM/IT encoder `write` and a loader model `read`: "
-         "whole-file round trip for MOD, pattern-codec and sample-header-codec round trips for S3M/XM/IT; the encoder's files are "
-         "loaded by the real library and every listed field is compared with the abstract song (direct oracle); the loader "
-         "model is tied to the C by differential correspondence on the written files, byte mutants and the repository corpus.",
-    note="Proved (Lean kernel, axioms propext/Classical.choice/Quot.sound): MOD whole-file round trip read(write s o)=some s for all "
-         "signature kinds and option streams; S3M packed-pattern codec for every what-flag choice; XM cell codec for unpacked and every "
-         "packed mask; IT note/volume/instrument byte codecs; IT 2.14/2.15 sample decompressor model vs the writer's widest-code compressor for one block at bit level; 8/16-bit sign conversion and delta storage. NOT proved, only evaluated on every generated case "
-         "(rt ok) and checked against the real loader: file-level assembly of S3M/XM/IT (headers, offset tables, sample headers, PCM "
-         "conversions delta/16-bit/stereo), the IT mask/last-value pattern compression. Not modelled (model silent, oracle still "
-         "compares what the real loader returns for written files): IT instrument mode (IMPI headers, key maps, envelopes), XM <= 1.03 layout, AdLib/ADPCM/OGG samples, truncated files, effect columns (opaque), "
-         "xpo/fin derived from c2spd by floating point (S3M/IT), XMP_SAMPLE_LOOP_FULL, envelopes and every field the property does not "
-         "list. Observation rule: loop points compared only when the loop flag is set. Domain restrictions found by the oracle/proofs: "
-         "the order list must reach a pattern before an end marker (scan refuses otherwise), MOD sample bodies must not spell 'ADPCM' "
-         "at a sample start (ModPlug extension is ambiguous with raw PCM), IT samples of exactly one frame are never loaded (len>1 test), "
-         "an IT pattern stored as offset 0 is 64 rows. Trusted: the hand-written models, the harness dump, the differ.",
-    technique="Lean 4 codec round-trip proofs + specification-derived encoder as oracle + differential correspondence of the loader model",
+         "whole-file round trip read(write s o) = some s for all four formats and songs/files of every size (explicit decidable "
+         "WellFormed predicates, non-vacuity examples), built from codec theorems (pattern codecs incl. the IT mask/last-value "
+         "compression, sample-header codecs, PCM conversions, IT 2.14/2.15 sample compression against the full itsex.c model, IT key "
+         "tables); the encoder's files are loaded by the real library and every listed field is compared with the abstract song "
+         "(direct oracle); the loader model is tied to the C by differential correspondence on the written files, byte mutants "
+         "and the repository corpus.",
+    note="Proved (Lean kernel, axioms propext/Classical.choice/Quot.sound), structurally for all sizes: MOD whole file (all signature "
+         "kinds; needs NoAdpcm, shown necessary); S3M whole file (header, orders, parapointer tables, pan table, 80-byte sample headers with "
+         "24-bit paragraphs, packed patterns with every what-flag choice stored or parapointer 0, signed/unsigned 8/16-bit mono/stereo PCM); "
+         "XM 1.04 whole file (song header sizes 21..276, pattern headers with packed/unpacked cells and every mask or no data, instrument "
+         "headers of every accepted size incl. stripped and sample-less, key maps, sample headers, delta-coded 8/16-bit mono/stereo PCM; "
+         "the only Ogg condition left is on a sample's own stored bytes 4..7); IT whole file in sample mode and instrument mode (new and old IMPI headers, key tables numbered "
+         "in order of first appearance, volume/pan inheritance from the samples), offset tables, IMPS headers with loop/sustain/ping-pong "
+         "flags, packed patterns with every mask/last-value writer choice, channel count of the loader's first pass, plain and IT 2.14/2.15 "
+         "compressed samples (whole-sample byte-level decompress(compress raw) = raw for every width wish, multi-block, stereo). "
+         "WellFormed also states the pointer widths of the formats (S3M 16-bit pattern / 24-bit sample paragraphs, IT 16-bit pattern "
+         "length and 32-bit offsets). Not modelled (model silent; the oracle still compares what the real loader returns for written "
+         "files): XM <= 1.03 layout, AdLib/ADPCM/OGG samples, truncated files, effect columns (opaque bytes), envelopes, xpo/fin derived "
+         "from c2spd by floating point (S3M/IT), XMP_SAMPLE_LOOP_FULL and every field the property does not list. IT edit history and "
+         "embedded MIDI configuration are modelled only as presence tests (they are skipped/read but never observed). Observation rule: "
+         "loop points compared only when the loop flag is set. Domain restrictions found by the oracle/proofs: the S3M/IT scan from order 0 (entries naming no "
+         "stored pattern are skipped) must reach a stored pattern before an end marker, MOD sample bodies must not spell 'ADPCM' at a sample start, an XM "
+         "sample that stores >= 8 bytes must not have 'OggS' at its own offset 4 (it would legitimately be an Ogg sample), IT samples of exactly one frame are never loaded (len>1 test), an IT "
+         "pattern stored as offset 0 is 64 rows. Genuine defects found by this check and repaired in /repo (witnesses in corpus/C19, run first): "
+         "XM is_ogg_sample probed the file behind samples shorter than 8 bytes (f3de111); a scan whose computed duration went negative "
+         "(IT tempo slide plus speed change on one row) refused the module (d83ea15). Trusted: the hand-written models (tied by correspondence: 4 x 160 mutants + corpus per "
+         "quick run, generated files incl. IT instrument mode and every XM header-size variant), the harness dump, the differ.",
+    technique="Lean 4 whole-file codec round-trip proofs + specification-derived encoder as oracle + differential correspondence of the loader model",
     design_ref="DESIGN.md section 4 C19",
 )
 REQUIRED = ["Xmp.Fmt.C19_roundtrip_mod", "Xmp.Fmt.C19_mod_period_roundtrip", "Xmp.Fmt.C19_mod_adpcm_hypothesis_needed",
             "Xmp.Fmt.C19_s3m_pattern_codec", "Xmp.Fmt.C19_s3m_note_codec", "Xmp.Fmt.C19_xm_cell_codec",
             "Xmp.Fmt.C19_xm_cells_codec", "Xmp.Fmt.C19_it_field_codecs_partial", "Xmp.Fmt.C19_it_compress_block_partial", "Xmp.Fmt.C19_pcm_sign8_involutive", "Xmp.Fmt.C19_pcm_sign16_involutive",
-            "Xmp.Fmt.C19_pcm_delta8", "Xmp.Fmt.C19_pcm_delta16"]
+            "Xmp.Fmt.C19_pcm_delta8", "Xmp.Fmt.C19_pcm_delta16",
+            # second wave
+            "Xmp.Fmt.C19_roundtrip_s3m", "Xmp.Fmt.C19_s3m_pcm_codec", "Xmp.Fmt.C19_pcm_stereo_blocks",
+            "Xmp.Fmt.C19_it_pattern_codec", "Xmp.Fmt.C19_it_channel_scan", "Xmp.Fmt.C19_it_sample_compression",
+            "Xmp.Fmt.C19_roundtrip_it", "Xmp.Fmt.C19_it_key_table_codec",
+            "Xmp.Fmt.C19_roundtrip_xm", "Xmp.Fmt.C19_xm_ogg_window_regression", "Xmp.Fmt.C19_xm_pcm_codec",
+            "Xmp.Fmt.C19_roundtrip_all", "Xmp.Fmt.C19_s3m_order_rule"]
 
 TYPE_PREFIX = {"mod": None, "s3m": " S3M", "xm": " XM ", "it": " IT "}
 
@@ -172,6 +192,53 @@ def corpus_of(fmt):
     return [f for f in vlib.corpus_files() if f.lower().endswith(exts) and os.path.getsize(f) < 1500000]
 
 
+def corpus_first(ck, exe, drv, bump):
+    """corpus/C19/*.json: regression witnesses of repaired loader defects (file bytes + the abstract song's dump),
+    run before anything else: direct oracle (real loader vs recorded abstract song) and model correspondence."""
+    import glob
+    import json
+    cases = []
+    for f in sorted(glob.glob(os.path.join(vlib.VERIF, "corpus", "C19", "*.json"))):
+        try:
+            cases.append(json.load(open(f)))
+        except (OSError, ValueError) as e:
+            raise vlib.InfraError("unreadable corpus case %s: %s" % (f, e))
+    if not cases:
+        return
+    rc, out, err = run_proc([exe], "".join("hex %s %s\n" % (c["id"], c["hex"]) for c in cases))
+    real = dict(parse_blocks(out))
+    rc2, out2, err2 = run_proc([drv], "".join("read %s %s %s\n" % (c["fmt"], c["id"], c["hex"]) for c in cases))
+    model = dict(parse_blocks(out2)) if rc2 == 0 else {}
+    for c in cases:
+        cid, fmt = c["id"], c["fmt"]
+        ck.count(("corpus", cid), nontrivial=True)
+        bump("corpus_cases")
+        rp = {"fmt": fmt, "hex": c["hex"], "opts": c.get("opts"), "expected_dump": c["expected_dump"]}
+        if cid not in real:
+            ck.violation("corpus:%s:harness-abort:%s" % (cid, vlib.sanitizer_signature(err)), dict(rp, stderr=err[-2000:]),
+                         "corpus case %s (%s): the harness aborted" % (cid, c["why"]))
+            continue
+        _, rbody = strip_meta(real[cid])
+        if rbody and rbody[0].startswith("loadfail"):
+            ck.violation("corpus:%s:loadfail" % cid, rp, "corpus case %s is refused again (%s): %s" % (cid, rbody[0], c["why"]))
+            continue
+        d, _ = first_diff(canon(fmt, c["expected_dump"]), canon(fmt, rbody))
+        if d:
+            ck.violation("corpus:%s" % cid, dict(rp, diff=d), "corpus case %s: loaded module differs from the recorded song: %s -- %s" % (cid, d, c["why"]))
+            continue
+        bump("corpus_oracle_agree")
+        if cid in model and not (model[cid] and model[cid][0] == "silent"):
+            _, mbody = strip_meta(model[cid])
+            d, _ = first_diff(canon(fmt, mbody), canon(fmt, rbody))
+            if d:
+                ck.unproved("correspondence %s.read vs %s loader (corpus %s)" % (fmt, fmt, cid), "model(expected)/real(got) %s" % d)
+            else:
+                ck.cov["traces_validated_against_impl"] += 1
+                bump("corpus_model_agree")
+        elif cid in model:
+            bump("corpus_model_silent")
+
+
 def run(ck):
     quick = ck.tier == "quick"
     import time
@@ -186,6 +253,9 @@ def run(ck):
 
     def bump(k, n=1):
         stats[k] = stats.get(k, 0) + n
+
+    # ---- regression corpus first ------------------------------------------------------------------------
+    corpus_first(ck, exe, drv, bump)
 
     # ---- translator-like tie: libxmp_period_to_note over every 12-bit period -------------------------
     rc, out, err = run_proc([exe], "p2n\n")
